@@ -39,6 +39,7 @@ def generate(rng, tier):
                            'subkeys': [{'alg': 'cv25519', 'usage': 'E'}] if i == 0 else [], 'created_us': 1_500_000_000_000_000}
     spec = encworld.gen_message_spec(rng, big_ok=(tier == 'thorough' and rng.random() < 0.1))
     spec['filename'] = rng.choice(FILENAMES)
+    spec['bom'] = rng.random() < 0.15
     steps = [{'id': 's0', 'op': 'new', 'msg': spec}]
     n = rng.randint(2, 8 if tier == 'thorough' else 6)
     for i in range(1, n + 1):
